@@ -17,7 +17,7 @@ def nontrivial(beh):
 
 
 def gen_consts(steps, **over):
-    c = dict(InCalls=[('ia1', 1), ('ia2', 1)], OutAliases=['oa2'], Vals=['v1'],
+    c = dict(InCalls=[('ia1', 1), ('ia2', 1), ('ia2', 2)], OutAliases=['oa2'], Vals=['v1'],
              InFaults=['none', 'keyFail', 'prepFail', 'copyFail'], OutFaults=['none', 'prepFail'],
              Bodies=['plain', 'discards', 'forces', 'nestSame', 'nestOther'], InnerCall=('ia1', 2),
              OutResults=[('val', 'v1'), ('exc', 'E1')],
@@ -50,9 +50,9 @@ def run(rep, tier, seed):
                                              Classes=[K('K1')], Draws=['low'], Extractors=['none'],
                                              SaveFails=[False], StartEnabled=[True]),
                       invariants=['Transparent'], expect='Transparent')
-            ex = chk.generate('gen2', gen_consts(2), cassettes=('memory',), n_conc=2, all_paths=True, cap=40000)
+            ex = chk.generate('gen2', gen_consts(2), cassettes=('memory',), n_conc=1, all_paths=True, cap=45000)
             chk.generate('gen3', gen_consts(3, Classes=[K('K1', copyOn=True)], Draws=['low'], Ctl=['discard'],
-                                            Bodies=['plain', 'discards', 'nestOther'], InCalls=[('ia2', 1)],
+                                            Bodies=['plain', 'discards', 'nestOther'], InCalls=[('ia2', 2)],
                                             Extractors=['none'], SaveFails=[False], StartEnabled=[True]),
                          cassettes=('memory',), n_conc=1, sample=3000, cap=6000)
             rep.exhaustive = bool(ex)
